@@ -62,9 +62,13 @@ class MemStateBackend(BaseStateBackend[Params, Result]):
         self._history.clear()
         self._results.clear()
         self._exceptions.clear()
+        self._workflow_data.clear()
         self._workflow_types.clear()
         self._workflow_runs.clear()
         self._workflow_sub_invocations.clear()
+        self._runner_contexts.clear()
+        # also the base-class cache: a context still cached would never be stored again
+        self._runner_context_cache.clear()
 
     def _upsert_invocations(
         self, entries: list[tuple["InvocationDTO", "CallDTO"]]
